@@ -356,8 +356,18 @@ def hyperu(a, b, x, out=None, n=0):
     out *= pow(-1, n) * scipy.special.poch(a, n)
     return out
 
+def _float_points(x):
+    """
+    Integer points (scalars or arrays) in floating point: squares and integer
+    powers of integers wrap around silently.
+    """
+    if np.result_type(x).kind in 'iub':
+        return np.multiply(x, 1.0)
+    return x
+
 @basecase(scipy.special.erf)
 def erf(x, out=None, n=0):
+    x = _float_points(x)
     a = 2 * np_recip_sqrt_pi * np.exp(-np.square(x))
     b = np.zeros_like(x, dtype=np.result_type(x, float))
     # the terms with 2*k + 2 - n <= 0 vanish (poch of a non-positive integer);
@@ -371,6 +381,7 @@ def erf(x, out=None, n=0):
 
 @basecase(np_erfi)
 def erfi(x, out=None, n=0):
+    x = _float_points(x)
     a = 2 * np_recip_sqrt_pi * np.exp(np.square(x))
     b = np.zeros_like(x, dtype=np.result_type(x, float))
     # the terms with 2*k + 2 - n <= 0 vanish (poch of a non-positive integer);
@@ -521,6 +532,7 @@ def tanh(x, out=None, n=0):
 
 @basecase(np.arcsinh)
 def arcsinh(x, out=None, n=0):
+    x = _float_points(x)
     x1 = np_recip_sqrt(1 + np.square(x))
     a = pow(-1, n-1) * math.factorial(n-1) * pow(x1, n)
     b = scipy.special.eval_legendre(n-1, x * x1)
@@ -528,6 +540,7 @@ def arcsinh(x, out=None, n=0):
 
 @basecase(np.arccosh, domain=DOM_GT_1)
 def arccosh(x, out=None, n=0):
+    x = _float_points(x)
     x1 = np_recip_sqrt(1 - np.square(x))
     a = -1 * pow(-1j, n) * math.factorial(n-1) * pow(x1, n)
     b = scipy.special.eval_legendre(n-1, 1j * x * x1)
